@@ -664,6 +664,21 @@ func Run(r *fw.Run) {
 		"module example.com/m\n\ngo 1.21\n\nrequire (\n\ta.com/x v1.0.0 // s1\n\n\t// b2\n\tb.com/y v1.1.0 // s2\n)\n",
 		"module example.com/m\n\ngo 1.21\n\nrequire (\n\ta.com/x v1.0.0 // indirect\n\n\t// b2\n\t// b2b\n\tb.com/y v1.1.0 // indirect; s2\n\n\t// b3\n\tc.com/z v1.0.0\n)\n",
 		"module example.com/m\n\ngo 1.21\n\nrequire (\n\n\t// b1\n\ta.com/x v1.0.0\n\n\n\t// b2\n\tb.com/y v1.1.0\n)\n")
+	// long blocks (sorting code changes strategy above a dozen or two elements): 45 requirements and 45
+	// exclusions in scrambled order, every line with its own end-of-line comment
+	{
+		var rq, ex strings.Builder
+		rq.WriteString("module example.com/m\n\ngo 1.21\n\nrequire (\n")
+		ex.WriteString("exclude (\n")
+		for i := 0; i < 45; i++ {
+			k := (i*17 + 5) % 45
+			fmt.Fprintf(&rq, "\tl%02d.com/p v1.%d.0 // r%02d\n", k, k%3, k)
+			fmt.Fprintf(&ex, "\tl%02d.com/p v1.%d.0 // e%02d\n", k%9, (k*7)%11, k)
+		}
+		rq.WriteString("\ta.com/x v1.0.0 // s1\n\tb.com/y v1.0.0 // indirect\n)\n\n")
+		ex.WriteString(")\n")
+		sds = append(sds, rq.String()+ex.String())
+	}
 	reqs := requests()
 	r.Bounds["require_lines_max"] = kmax
 	r.Bounds["seeds"] = len(sds)
